@@ -4,6 +4,8 @@ import (
 	"context"
 	"strconv"
 
+	"github.com/shopspring/decimal"
+
 	sym "github.com/streamingfast/substreams/zz_verifsym"
 )
 
@@ -13,6 +15,7 @@ import (
 // operations block by block to one store.
 func VerifC02Squash() {
 	p := sym.Param("POLICY", vPolSet)
+	vBeyond34 = false
 	segments := sym.Param("SEGMENTS", 1)
 	blocks := sym.Param("BLOCKS", 1)
 	maxOps := sym.Param("OPS", 2)
@@ -21,7 +24,7 @@ func VerifC02Squash() {
 	mem := sym.NewMemStore()
 	cfg.objStore = mem
 
-	seq := cfg.NewFullKV(vNop())   // sequential execution
+	seq := cfg.NewFullKV(vNop())    // sequential execution
 	squash := cfg.NewFullKV(vNop()) // full store + merged partials
 	vSymPre(seq.baseStore, p, valLen)
 	vCopyPre(squash.baseStore, seq.baseStore)
@@ -77,7 +80,19 @@ func VerifC02Squash() {
 		if !fa || !fb {
 			continue
 		}
-		if vIsFloat(p) {
+		if vIsDecimal(p) {
+			da, ea := decimal.NewFromString(string(va))
+			db, eb := decimal.NewFromString(string(vb))
+			sym.Assert(ea == nil && eb == nil, "decimal-values-parse")
+			if ea == nil && eb == nil {
+				if vBeyond34 {
+					// set_sum bigdecimal operand with more than 34 decimal places: own label (known finding)
+					sym.Assert(da.Cmp(db) == 0, "squash-same-decimal-setsum-beyond-34-places")
+				} else {
+					sym.Assert(da.Cmp(db) == 0, "squash-same-decimal")
+				}
+			}
+		} else if vIsFloat(p) {
 			fa2, ea := strconv.ParseFloat(string(va), 64)
 			fb2, eb := strconv.ParseFloat(string(vb), 64)
 			sym.Assert(ea == nil && eb == nil, "float-values-parse")
